@@ -92,7 +92,7 @@ static void note(const char *suffix, const char *text) {
     if (fd >= 0) { if (write(fd, text, strlen(text)) < 0) {} close(fd); }
 }
 
-static int seed_of(const char *t) { int s = 7; while (*t) s = s * 31 + (unsigned char)*t++; return s & 0xff; }
+static int seed_of(const char *t) { unsigned s = 7; while (*t) s = (s * 31 + (unsigned char)*t++) & 0xff; return (int)s; }
 
 static void slurp(int forward, int save) {
     int sv = -1;
@@ -112,7 +112,7 @@ done:;
     if (sv >= 0) close(sv);
     char t[128];
     snprintf(t, sizeof t, "%llu %016llx\n", (unsigned long long)n, (unsigned long long)h);
-    note("in", t);
+    if (!save) note("in", t);
 }
 
 static void emit(long n) {
